@@ -98,6 +98,23 @@ CHECKS["C16"] = dict(
     note=NOTE_A, technique="CrossHair-driven exhaustive enumeration of option/value combinations through the real print_decay_modes with "
     "captured stdout, oracle = ordering/scaling rule of the statement", design="§2 C16", engine="crosshair")
 
+CHECKS["C11"] = dict(
+    text=LEVEL_TEXT_A + ". Symbolic: branching fractions (float for modes, int for chains) and metadata values (int, str, nested); "
+         "structures: all tree shapes up to 5 decaying particles, repeated-particle shapes (to_dict half; the from_dict half is known "
+         "finding F4), parser-produced single-line chains, every PDG id of the EvtGen table through from_pdgids.",
+    note=NOTE_A, technique="CrossHair symbolic execution of DecayMode/DecayChain to_dict/from_dict with symbolic bf and metadata; solver-"
+    "driven enumeration for the parser and constructor families", design="§2 C11", engine="crosshair")
+CHECKS["C13"] = dict(
+    text=LEVEL_TEXT_A + ". The descriptor is read back by an independent bracket reader and compared with the tree; 1000 combinations of "
+         "structures (incl. repeated decaying daughters), name pools with parentheses/quotes/signs and 5 pattern pairs." + ENUM,
+    note=NOTE_A, technique="CrossHair-driven exhaustive enumeration of chain structures through to_string, oracle = bracket reader + "
+    "order-independence", design="§2 C13", engine="crosshair")
+CHECKS["C14"] = dict(
+    text=LEVEL_TEXT_A + ". Every history of 5 (quick) / 6 (thorough) steps over 16 operations is run against an observational stack "
+         "model (format in force and a rendered descriptor after every step)." + ENUM,
+    note=NOTE_A, technique="CrossHair-driven exhaustive enumeration of operation histories on the real DescriptorFormat against a stack model",
+    design="§2 C14", engine="crosshair")
+
 PENDING_REASON = "check not built yet in this session (planned, see DESIGN.md §2); not claimed until its quick command runs clean"
 NA = {
     "C20": "quantifies over process histories, interpreter starts and PYTHONHASHSEED values of code that must run untraced "
